@@ -761,6 +761,8 @@ impl Socket {
 
         let mut data = EndpointData::new(addrs);
         data.set_user_data(user_data);
+        #[cfg(iroh_verif)]
+        crate::verif_hooks::pause::point("publish_my_addr:publish");
         self.address_lookup.publish(&data);
     }
 }
